@@ -107,6 +107,9 @@ Definition levelSet (hp : heap) (r : rep) (a : string) (default : Z) (l : Z) : r
                             (simplices r false)).
 (* integrate(c): works on a deep copy; attributes are never written, so the copy keeps the handles *)
 Definition integrate (hp : heap) (c : rep) (a : string) (default : Z) : res Z :=
+  (* a non-numeric metric anywhere makes max() / range() raise TypeError *)
+  if existsb (fun s => match metric hp c a default s with Ok _ => false | Raise _ => true end) (simplices c false)
+  then Raise TypeError else
   let maxH := fold_right Z.max 0%Z (map (metric0 hp c a default) (simplices c false)) in
   let '(_, x) :=
     fold_left (fun (acc : rep * res Z) (l : nat) =>
